@@ -30,6 +30,8 @@ Prev == IF l = 2 THEN Trace[tid].obs0 ELSE Ev[l - 2].obs
 \* the driver saw as many scales as the model has
 SameShape == l > 1 => Len(Last.obs) = NS
 \* every scale maps the end points of the domain it reports exactly to the range it reports
+\* every call of the history completes (lists, tuples, ints and floats are all legal arguments)
+C12_CallsComplete == l > 1 => Last.err = ""
 C12_EndpointsMap == l > 1 => \A s \in 1..Len(Last.obs) : Last.obs[s].e0 = 1 /\ Last.obs[s].e1 = 1
 \* invert is the inverse of the CURRENT map: the range end points come back as the reported domain end points
 C12_InvertAfterHistory == l > 1 => \A s \in 1..Len(Last.obs) : Last.obs[s].v0 = 1 /\ Last.obs[s].v1 = 1
